@@ -448,6 +448,42 @@ func weightRoutingGraphs() []histGraph {
 			{Op: "LinearRegressor", Attrs: []Attr{{Name: "coefficients", Type: "floats", Fs: []float64{1, 0, -1}}, {Name: "intercepts", Type: "floats", Fs: []float64{1}}, {Name: "targets", Type: "i", I: 1}}, Ins: []string{"x2"}, Outs: []string{"y"}},
 		}, Outputs: []string{"s", "s2", "y"}}
 	out = append(out, histGraph{"ml-attrs-same-shape", gsc, []NamedT{{"x", smallT("f32", []int{3}, 2)}, {"x2", smallT("f32", []int{1, 3}, 3)}}, []NamedT{{"x", smallT("f32", []int{4}, 2)}, {"x2", smallT("f32", []int{1, 3}, 3)}}, nil})
+	// ONE weight handed DIRECTLY to every operator that takes a tensor (not only to the products and
+	// convolutions): whatever an operator does to its operand in place or lazily (transpose, reshape, slice
+	// views, casts) happens to the shared weight
+	{
+		i64 := func(v ...int) *TJ { return idxT("i64", []int{len(v)}, v) }
+		gwe := &GraphJ{Inputs: []VInfoJ{{Name: "x", Dt: "f32", Dims: []any{3, 3}}},
+			Inits: []InitJ{{Name: "W", T: smallT("f32", []int{3, 3}, 5)}, {Name: "W3", T: smallT("f32", []int{2, 3, 2}, 6)}, {Name: "Wrow", T: smallT("f32", []int{1, 3}, 2)},
+				{Name: "sh", T: i64(1, 9)}, {Name: "ax0", T: i64(0)}, {Name: "st", T: i64(1)}, {Name: "en", T: i64(3)}, {Name: "idx", T: i64(2, 0)}, {Name: "tgt", T: i64(3, 3)}},
+			Nodes: []NodeJ{
+				{Op: "Transpose", Attrs: []Attr{{Name: "perm", Type: "ints", Ints: []int64{1, 0}}}, Ins: []string{"W"}, Outs: []string{"t1"}},
+				{Op: "Transpose", Attrs: []Attr{{Name: "perm", Type: "ints", Ints: []int64{2, 0, 1}}}, Ins: []string{"W3"}, Outs: []string{"t2"}},
+				{Op: "Transpose", Attrs: []Attr{{Name: "perm", Type: "ints", Ints: []int64{1, 0}}}, Ins: []string{"Wrow"}, Outs: []string{"t3"}},
+				{Op: "MatMul", Ins: []string{"x", "t1"}, Outs: []string{"m"}},
+				{Op: "Reshape", Ins: []string{"W", "sh"}, Outs: []string{"r"}},
+				{Op: "Flatten", Attrs: []Attr{{Name: "axis", Type: "i", I: 2}}, Ins: []string{"W3"}, Outs: []string{"f"}},
+				{Op: "Squeeze", Ins: []string{"Wrow"}, Outs: []string{"sq"}},
+				{Op: "Unsqueeze", Ins: []string{"W", "ax0"}, Outs: []string{"u"}},
+				{Op: "Slice", Ins: []string{"W", "st", "en"}, Outs: []string{"sl"}},
+				{Op: "Gather", Attrs: []Attr{{Name: "axis", Type: "i", I: 1}}, Ins: []string{"W", "idx"}, Outs: []string{"ga"}},
+				{Op: "Expand", Ins: []string{"Wrow", "tgt"}, Outs: []string{"ex"}},
+				{Op: "Concat", Attrs: []Attr{{Name: "axis", Type: "i", I: 0}}, Ins: []string{"W", "x"}, Outs: []string{"cc"}},
+				{Op: "Cast", Attrs: []Attr{{Name: "to", Type: "i", I: 6}}, Ins: []string{"W"}, Outs: []string{"ca"}},
+				{Op: "ReduceMax", Attrs: []Attr{{Name: "axes", Type: "ints", Ints: []int64{1}}}, Ins: []string{"W"}, Outs: []string{"rmx"}},
+				{Op: "ReduceMin", Attrs: []Attr{{Name: "axes", Type: "ints", Ints: []int64{0}}, {Name: "keepdims", Type: "i", I: 0}}, Ins: []string{"W3"}, Outs: []string{"rmn"}},
+				{Op: "ArgMax", Attrs: []Attr{{Name: "axis", Type: "i", I: 1}}, Ins: []string{"W"}, Outs: []string{"am"}},
+				{Op: "Abs", Ins: []string{"W"}, Outs: []string{"ab"}},
+				{Op: "Relu", Ins: []string{"W"}, Outs: []string{"re"}},
+				{Op: "PRelu", Ins: []string{"x", "Wrow"}, Outs: []string{"pr"}},
+				{Op: "Add", Ins: []string{"W", "x"}, Outs: []string{"ad"}},
+				{Op: "Mul", Ins: []string{"x", "Wrow"}, Outs: []string{"mu"}},
+				{Op: "Less", Ins: []string{"W", "x"}, Outs: []string{"le"}},
+				{Op: "Shape", Ins: []string{"W3"}, Outs: []string{"shp"}},
+				{Op: "Gemm", Attrs: []Attr{{Name: "transB", Type: "i", I: 1}}, Ins: []string{"x", "W", "Wrow"}, Outs: []string{"ge"}},
+			}, Outputs: []string{"t1", "t2", "t3", "m", "r", "f", "sq", "u", "sl", "ga", "ex", "cc", "ca", "rmx", "rmn", "am", "ab", "re", "pr", "ad", "mu", "le", "shp", "ge", "W"}}
+		out = append(out, histGraph{"weight-into-every-operator", gwe, []NamedT{{"x", smallT("f32", []int{3, 3}, 7)}}, []NamedT{{"x", smallT("f32", []int{3, 2}, 7)}}, nil})
+	}
 	out = append(out, histGraph{"reductions-passthrough", gw, []NamedT{{"x", smallT("f32", []int{2, 3}, 7)}}, []NamedT{{"x", smallT("f32", []int{3, 3}, 7)}}, nil})
 	return out
 }
